@@ -56,11 +56,12 @@ Theorem C03_normalize_affine_monotone : forall f (U : list R),
 Proof. intros f U. split; [apply normalize_affine|intros H a b; apply normalize_monotone; exact H]. Qed.
 Print Assumptions C03_normalize_affine_monotone.
 
-(* [G] binary search = linear search: for every sorted knot vector, every degree and every parameter of [U_p, U_num) that is
-   not within the implementation's end tolerance of U_num, the binary search terminates (within the model's fuel) and returns
-   the span of the linear search, i.e. the unique non-empty half-open interval containing u *)
+(* [G] binary search = linear search: for every sorted knot vector, every degree and every parameter u >= U_p (inside the
+   domain, at its end, or beyond) the binary search terminates (within the model's fuel) and returns the span of the linear
+   search, i.e. the unique non-empty half-open interval containing u (the last one at the end).  (The pinned code's 1e-5
+   end-tolerance shortcut made this false near the end; repaired in /repo b25d1c5.) *)
 Theorem C03_binsearch_eq_linear : forall (U : list R) (u tol : R) (p num : nat),
-  sortedR U -> (p < num)%nat -> (num < length U)%nat -> (knR U p <= u < knR U num)%R -> (tol < Rabs (knR U num - u))%R ->
+  sortedR U -> (p < num)%nat -> (num < length U)%nat -> (knR U p <= u)%R ->
   find_span_binsearch Rops tol p U num u = Some (find_span_linear Rops p U num u).
 Proof. intros U u tol p num Hs. exact (binsearch_eq_linear U u Hs tol p num). Qed.
 Print Assumptions C03_binsearch_eq_linear.
